@@ -64,6 +64,17 @@ def main():
     except Exception:
         pass
     meta["property"] = prop
+    # keep what earlier runs of our checks said about this seed (first missed / caught later)
+    try:
+        old = json.load(open(os.path.join(d, "meta.json")))
+        hist = old.get("earlier_check_runs", [])
+        oc = old.get("confirmation_and_detection", {})
+        hist.append({k: {"exit": v.get("exit"), "n_violation_lines": v.get("n_violation_lines"),
+                         "first_violation_line": (v.get("violation_lines") or [None])[0]}
+                     for k, v in oc.items() if k.startswith("check_")})
+        meta["earlier_check_runs"] = hist
+    except Exception:
+        pass
     meta["confirmation_and_detection"] = res
     meta["what_was_run"] = ("scratch worktree: demo on clean tree, demo with patch, full pytest with patch; then the patch applied to the tree under test (VERIF_REPO = scratch worktree, or /repo itself with --in-repo), "
                             "`./check <id> --tier quick` for %s, tree restored" % checks)
